@@ -738,3 +738,235 @@ def atoms_closure(polys, bools):
 def free_vars(polys, bools):
   return sorted(ATOMS[i].name for i in atoms_closure(polys, bools)
                 if ATOMS[i].kind == 'var')
+
+
+# ------------------------------------------------- interval reasoning / region simplifier
+
+def _imul(a, b):
+  """Interval product; None = infinite end."""
+  (al, ah), (bl, bh) = a, b
+  if (al == 0 and ah == 0) or (bl == 0 and bh == 0):
+    return (Fr(0), Fr(0))
+  cands = []
+  inf_lo = inf_hi = False
+  for x, xs in ((al, -1), (ah, 1)):
+    for y, ys in ((bl, -1), (bh, 1)):
+      if x is None or y is None:
+        # sign of the infinite product
+        sx = xs if x is None else (1 if x > 0 else -1 if x < 0 else 0)
+        sy = ys if y is None else (1 if y > 0 else -1 if y < 0 else 0)
+        s = sx * sy
+        if s > 0:
+          inf_hi = True
+        elif s < 0:
+          inf_lo = True
+        else:
+          cands.append(Fr(0))
+      else:
+        cands.append(x * y)
+  lo = None if inf_lo else min(cands)
+  hi = None if inf_hi else max(cands)
+  return (lo, hi)
+
+
+def _iadd(a, b):
+  return (None if a[0] is None or b[0] is None else a[0] + b[0],
+          None if a[1] is None or b[1] is None else a[1] + b[1])
+
+
+def _iscale(a, c):
+  if c == 0:
+    return (Fr(0), Fr(0))
+  lo = None if a[0] is None else a[0] * c
+  hi = None if a[1] is None else a[1] * c
+  return (lo, hi) if c > 0 else (hi, lo)
+
+
+class Region(object):
+  """Box of variable bounds: name -> (lo, hi), None = unbounded."""
+
+  def __init__(self, bounds):
+    self.bounds = dict(bounds)
+    self._ai = {}
+    self._simp = {}
+
+  def formula(self):
+    cl = []
+    for n, (lo, hi) in sorted(self.bounds.items()):
+      v = P.var(n)
+      if lo is not None:
+        cl.append(v >= lo)
+      if hi is not None:
+        cl.append(v <= hi)
+    return ball(cl)
+
+  # -- intervals
+  def interval(self, p):
+    tot = (Fr(0), Fr(0))
+    for m, c in p.t.items():
+      iv = (Fr(1), Fr(1))
+      for i, e in m:
+        ai = self.atom_interval(ATOMS[i])
+        for _ in range(e):
+          iv = _imul(iv, ai)
+        if e % 2 == 0 and iv[0] is not None and iv[0] < 0:
+          iv = (Fr(0), iv[1])
+        elif e % 2 == 0 and iv[0] is None:
+          iv = (Fr(0), iv[1])
+      tot = _iadd(tot, _iscale(iv, c))
+    return tot
+
+  def atom_interval(self, a):
+    r = self._ai.get(a.id)
+    if r is not None:
+      return r
+    k = a.kind
+    if k == 'var':
+      r = self.bounds.get(a.name, (None, None))
+    elif k in ('max', 'min'):
+      ivs = [self.interval(x) for x in a.args]
+      los = [iv[0] for iv in ivs]
+      his = [iv[1] for iv in ivs]
+      if k == 'max':
+        lo = None if all(l is None for l in los) else max(l for l in los if l is not None)
+        hi = None if any(h is None for h in his) else max(his)
+      else:
+        lo = None if any(l is None for l in los) else min(los)
+        hi = None if all(h is None for h in his) else min(h for h in his if h is not None)
+      r = (lo, hi)
+    elif k == 'abs':
+      lo, hi = self.interval(a.args[0])
+      if lo is not None and lo >= 0:
+        r = (lo, hi)
+      elif hi is not None and hi <= 0:
+        r = (-hi, None if lo is None else -lo)
+      else:
+        r = (Fr(0), None if lo is None or hi is None else max(-lo, hi))
+    elif k == 'ite':
+      x, y = self.interval(a.args[1]), self.interval(a.args[2])
+      r = (None if x[0] is None or y[0] is None else min(x[0], y[0]),
+           None if x[1] is None or y[1] is None else max(x[1], y[1]))
+    elif k == 'inv':
+      lo, hi = self.interval(a.args[0])
+      if lo is not None and lo > 0:
+        r = (None if hi is None else 1 / hi, 1 / lo)
+        if hi is None:
+          r = (Fr(0), 1 / lo)
+      elif hi is not None and hi < 0:
+        r = (1 / hi, Fr(0) if lo is None else 1 / lo)
+      else:
+        r = (None, None)
+    else:
+      r = (None, None)
+    self._ai[a.id] = r
+    return r
+
+  def truth(self, b):
+    """True / False when the formula is decided on the whole region, else None."""
+    k = b.kind
+    if k == 'const':
+      return bool(b.args)
+    if k in ('le', 'lt', 'eq'):
+      lo, hi = self.interval(self.simplify(b.args[0]))
+      if k == 'le':
+        if hi is not None and hi <= 0:
+          return True
+        if lo is not None and lo > 0:
+          return False
+      elif k == 'lt':
+        if hi is not None and hi < 0:
+          return True
+        if lo is not None and lo >= 0:
+          return False
+      else:
+        if lo == 0 and hi == 0:
+          return True
+        if (lo is not None and lo > 0) or (hi is not None and hi < 0):
+          return False
+      return None
+    if k == 'not':
+      t = self.truth(b.args[0])
+      return None if t is None else (not t)
+    ts = [self.truth(x) for x in b.args]
+    if k == 'and':
+      if any(t is False for t in ts):
+        return False
+      return True if all(t is True for t in ts) else None
+    if k == 'or':
+      if any(t is True for t in ts):
+        return True
+      return False if all(t is False for t in ts) else None
+    return None
+
+  # -- simplification
+  def simplify(self, p):
+    r = self._simp.get(p)
+    if r is not None:
+      return r
+    out = P.const(0)
+    for m, c in p.t.items():
+      term = P.const(c)
+      for i, e in m:
+        ap = self.simplify_atom(ATOMS[i])
+        for _ in range(e):
+          term = term * ap
+      out = out + term
+    self._simp[p] = out
+    return out
+
+  def simplify_atom(self, a):
+    k = a.kind
+    if k == 'var':
+      lo, hi = self.bounds.get(a.name, (None, None))
+      if lo is not None and lo == hi:
+        return P.const(lo)
+      return P.of_atom(a)
+    if k in ('max', 'min'):
+      args = [self.simplify(x) for x in a.args]
+      keep = list(range(len(args)))
+      for i in range(len(args)):
+        for j in range(len(args)):
+          if i == j or i not in keep or j not in keep:
+            continue
+          lo, hi = self.interval(args[j] - args[i])
+          # j dominates i on the whole region
+          if k == 'max' and lo is not None and lo >= 0:
+            keep.remove(i)
+            break
+          if k == 'min' and hi is not None and hi <= 0:
+            keep.remove(i)
+            break
+      rest = [args[i] for i in keep]
+      return pmax(*rest) if k == 'max' else pmin(*rest)
+    if k == 'abs':
+      q = self.simplify(a.args[0])
+      lo, hi = self.interval(q)
+      if lo is not None and lo >= 0:
+        return q
+      if hi is not None and hi <= 0:
+        return -q
+      return pabs(q)
+    if k == 'ite':
+      t = self.truth(a.args[0])
+      if t is True:
+        return self.simplify(a.args[1])
+      if t is False:
+        return self.simplify(a.args[2])
+      return ite(self.simplify_b(a.args[0]), self.simplify(a.args[1]), self.simplify(a.args[2]))
+    if k == 'inv':
+      return inv(self.simplify(a.args[0]))
+    if k == 'fn':
+      return fn(a.name, *[self.simplify(x) for x in a.args])
+    raise ValueError(k)
+
+  def simplify_b(self, b):
+    t = self.truth(b)
+    if t is not None:
+      return B.const(t)
+    k = b.kind
+    if k in ('le', 'lt', 'eq'):
+      return B.cmp(k, self.simplify(b.args[0]))
+    if k == 'not':
+      return ~self.simplify_b(b.args[0])
+    parts = [self.simplify_b(x) for x in b.args]
+    return band(*parts) if k == 'and' else bor(*parts)
